@@ -14,7 +14,7 @@ inductive Json
 
 namespace Json
 
-def hexDigit (n : Nat) : Char := if n < 10 then Char.ofNat (48 + n) else Char.ofNat (87 + n)
+def hexDigit (n : Nat) : Char := if n < 10 then Char.ofNat (48 + n) else Char.ofNat (55 + n)
 
 /-- JSON string escaping as serde-json-wasm writes it -/
 def escapeChar (c : Char) : String :=
